@@ -35,6 +35,86 @@ type (
 	MyStr string
 )
 
+// Node is self-referential: rings through Next, and the unexported field self holds (inside an
+// interface) a pointer to the node itself.
+type Node struct {
+	V    int
+	Next *Node
+	self interface{}
+}
+
+// NewRing builds a ring of 1..3 nodes from a digest; every node's self field points at itself.
+func NewRing(d uint64) *Node {
+	n := 1 + int(d%3)
+	nodes := make([]*Node, n)
+	for i := range nodes {
+		nodes[i] = &Node{V: int((d >> (8 * uint(i))) % 1000)}
+		nodes[i].self = nodes[i]
+	}
+	for i := range nodes {
+		nodes[i].Next = nodes[(i+1)%n]
+	}
+	return nodes[0]
+}
+
+// Priv has only unexported fields, of the kinds a printer treats specially.
+type Priv struct {
+	a int
+	s string
+	p *int
+	f func()
+	e error
+	n *Node
+	m map[string]*Priv
+}
+
+// NewPriv builds a Priv from a digest.
+func NewPriv(d uint64) Priv {
+	v := Priv{a: int(d % 100000), s: fmt.Sprintf("priv%x", d%0xffff)}
+	if d&1 == 0 {
+		v.p = &intCells[d%8]
+	}
+	if d&2 == 0 {
+		v.f = PhPad
+	}
+	switch d % 5 {
+	case 0:
+		v.e = (*PtrErr)(nil)
+	case 1:
+		v.e = ErrTable(int(d % 3))
+	}
+	if d&8 == 0 {
+		v.n = NewRing(d >> 4)
+	}
+	if d&16 == 0 {
+		v.m = map[string]*Priv{"k": nil}
+	}
+	return v
+}
+
+var (
+	nodeT    = reflect.TypeOf(Node{})
+	nodePtrT = reflect.TypeOf(&Node{})
+	privT    = reflect.TypeOf(Priv{})
+)
+
+// Special reports whether values of type t are built by a constructor (types with unexported
+// fields or cycles) and builds one from a digest.
+func Special(t reflect.Type, d uint64) (reflect.Value, bool) {
+	switch t {
+	case nodePtrT:
+		if d%7 == 0 {
+			return reflect.Zero(t), true
+		}
+		return reflect.ValueOf(NewRing(d)), true
+	case nodeT:
+		return reflect.ValueOf(*NewRing(d)), true
+	case privT:
+		return reflect.ValueOf(NewPriv(d)), true
+	}
+	return reflect.Value{}, false
+}
+
 // PtrErr is an error implemented on a pointer receiver that dereferences it: a typed nil *PtrErr
 // inside an error interface panics when Error() is called directly (fmt's %v recovers from that).
 type PtrErr struct{ Msg string }
@@ -99,7 +179,12 @@ func mix(a, b uint64) uint64 {
 
 // Digest folds a value into a digest (deep: pointers contribute their pointee, funcs and
 // channels and unsafe pointers only their nil-ness).
-func Digest(d uint64, v reflect.Value) uint64 {
+func Digest(d uint64, v reflect.Value) uint64 { return digest(d, v, 0) }
+
+func digest(d uint64, v reflect.Value, depth int) uint64 {
+	if depth > 10 {
+		return mix(d, 0xc1c1e) // cyclic structures: the walk is cut at a fixed depth
+	}
 	if !v.IsValid() {
 		return mix(d, 0xdead)
 	}
@@ -135,24 +220,24 @@ func Digest(d uint64, v reflect.Value) uint64 {
 	case reflect.Array:
 		d = mix(d, uint64(v.Len()))
 		for i := 0; i < v.Len(); i++ {
-			d = Digest(d, v.Index(i))
+			d = digest(d, v.Index(i), depth+1)
 		}
 		return d
 	case reflect.Struct:
 		for i := 0; i < v.NumField(); i++ {
-			d = Digest(d, v.Field(i))
+			d = digest(d, v.Field(i), depth+1)
 		}
 		return d
 	case reflect.Ptr:
 		if v.IsNil() {
 			return mix(d, 0x9717)
 		}
-		return Digest(mix(d, 0x9718), v.Elem())
+		return digest(mix(d, 0x9718), v.Elem(), depth+1)
 	case reflect.Interface:
 		if v.IsNil() {
 			return mix(d, 0x1face)
 		}
-		return Digest(mix(d, 0x1facf), v.Elem())
+		return digest(mix(d, 0x1facf), v.Elem(), depth+1)
 	case reflect.Map:
 		if v.IsNil() {
 			return mix(d, 0x3a9)
@@ -161,7 +246,7 @@ func Digest(d uint64, v reflect.Value) uint64 {
 		var acc uint64
 		it := v.MapRange()
 		for it.Next() {
-			acc += Digest(Digest(7, it.Key()), it.Value())
+			acc += digest(digest(7, it.Key(), depth+1), it.Value(), depth+1)
 		}
 		return mix(mix(d, uint64(v.Len())), acc)
 	case reflect.Func, reflect.Chan, reflect.UnsafePointer:
@@ -182,6 +267,9 @@ var intCells [8]int
 
 // Derive builds a value of type t from a digest.
 func Derive(t reflect.Type, d uint64) reflect.Value {
+	if sv, ok := Special(t, d); ok {
+		return sv
+	}
 	v := reflect.New(t).Elem()
 	switch t.Kind() {
 	case reflect.Bool:
